@@ -129,3 +129,42 @@ def frame_boundary(env):
     return dict(name='frame_boundary', validates='tokio-util LengthDelimitedCodec boundary (strict >) through the real codec built by network_message_frame_codec',
                 cases=cases, failed=fails, ok=not fails, props=['C15'],
                 clause='anything up to and including the configured maximum is delivered intact; anything above is refused by the sender before transmission and by the receiver on arrival')
+
+
+ADMISSION_SCENARIOS = [
+    dict(limit=1, steps=[dict(dir='out'), dict(dir='in'), dict(dir='in', affinity='allowed'), dict(dir='in', affinity='never'), dict(dir='in', affinity='high'), dict(dir='out')]),
+    dict(limit=1, steps=[dict(dir='in'), dict(dir='in'), dict(dir='in', affinity='high'), dict(dir='in', affinity='allowed'), dict(dir='in')]),
+    dict(limit=2, steps=[dict(dir='out'), dict(dir='in'), dict(dir='in'), dict(dir='in', affinity='allowed')]),
+    dict(limit=0, steps=[dict(dir='in'), dict(dir='in', affinity='allowed'), dict(dir='out'), dict(dir='in', affinity='never')]),
+    dict(limit=None, steps=[dict(dir='in'), dict(dir='in'), dict(dir='in', affinity='never'), dict(dir='in')]),
+]
+
+
+def admission_expected(limit, steps):
+    est, out = 0, []
+    for st in steps:
+        if st['dir'] == 'out':
+            ok = True
+        else:
+            aff = st.get('affinity')
+            ok = False if aff == 'never' else True if aff in ('high', 'allowed') else (limit is None or est < limit)
+        out.append(ok)
+        est += 1 if ok else 0
+    return out
+
+
+def admission_scenarios(env):
+    """C10 on real networks over loopback: sequences of non-overlapping arrivals and explicit dials, every limit/affinity combination
+    of the table above; an inbound arrival is admitted (dialer's connect succeeds, listed, RPC works) exactly when the statement says so"""
+    fails, cases = [], 0
+    for sc in ADMISSION_SCENARIOS:
+        got = _run('admission', sc, env)
+        exp = admission_expected(sc['limit'], sc['steps'])
+        cases += len(exp)
+        steps = got.get('steps') or []
+        bad = [i for i, e in enumerate(exp) if i >= len(steps) or steps[i].get('connect_ok') != e or steps[i].get('listed') != e]
+        if bad:
+            fails.append(dict(scenario='admission', args=sc, expected=dict(admitted_per_step=exp, first_wrong_step=bad[0]), observed=got))
+    return dict(name='admission_scenarios', validates='the admission decision end to end on real networks (TLS + acknowledgement handshake + registration), which the lifted block contract cannot see',
+                cases=cases, failed=fails, ok=not fails, props=['C10'],
+                clause='Never -> never admitted; High/Allowed -> always admitted; others -> admitted iff no limit or established (in and out) < limit; explicit dials are never blocked; a rejected dialer sees its connect fail')
